@@ -36,6 +36,7 @@ PRESTATES = {"script": ["absent", "older"], "code": ["absent", "foreign"]}
 _RIG = None
 _PRISTINE = None  # filled in the parent, inherited by the workers
 _LOGS = None
+_LIVE = None
 _QUICK_STRIDE = 1
 
 
@@ -102,6 +103,14 @@ def prepare():
             if f.read() != pri[entry]:
                 raise common.ToolError(f"{entry} cache file bytes are not reproducible")
     _PRISTINE = pri
+    # liveness probe: an entry with the CURRENT header and a tell-tale payload IS executed, i.e. the
+    # cache is really consulted on this seam (otherwise everything below would hold vacuously)
+    global _LIVE
+    _LIVE = {}
+    for entry in ("script", "code"):
+        _clean(rig)
+        _put(rig, entry, core.current_header() + core.foreign_payload())
+        _LIVE[entry] = core.FOREIGN_MARK in _real(rig, entry)["stdout"]
     logs = {}
     for entry in ("script", "code"):
         for pre in PRESTATES[entry]:
@@ -332,6 +341,8 @@ def run_part(ctx):
     ctx.sample({"part": 2, "entry": "script", "corruption": ["trunc", core.header_len(_PRISTINE["script"]) + 7]})
     ctx.sample({"part": 2, "entry": "code", "fault": items[-2][2]})
     evaluated = len(items) - sum(skipped.values())
+    if not all(_LIVE.values()):
+        ctx.notes.append(f"vacuity warning: a valid cache entry was not used on this seam: {_LIVE}")
     return {
         "evaluations": evaluated,
         "exhaustive": True,
@@ -345,6 +356,7 @@ def run_part(ctx):
             "faulted_runs_that_raised (not judged)": raised,
             "entry_state_left_by_fault": left,
             "raw_violations": nviol,
+            "cache_hit_observed (valid entry with tell-tale payload is executed)": _LIVE,
         },
     }
 
